@@ -178,12 +178,14 @@ impl crate::platform::Arch for ElfX86_64 {
                     } else {
                         4
                     };
+                    // These forms carry REX.W, so the CPU sign-extends the 32-bit immediate. The
+                    // value therefore has to fit in a signed 32 bits (GNU ld uses R_X86_64_32S too).
                     match b1 {
                         // mov *x(%rip), reg
                         0x8b => {
                             return Some(Relaxation {
                                 kind: RelaxationKind::RexMovIndirectToAbsolute(inst_offset),
-                                rel_info: rel_info_from_type!(object::elf::R_X86_64_32),
+                                rel_info: rel_info_from_type!(object::elf::R_X86_64_32S),
                                 mandatory: output_kind.is_static_executable(),
                             });
                         }
@@ -191,7 +193,7 @@ impl crate::platform::Arch for ElfX86_64 {
                         0x2b => {
                             return Some(Relaxation {
                                 kind: RelaxationKind::RexSubIndirectToAbsolute(inst_offset),
-                                rel_info: rel_info_from_type!(object::elf::R_X86_64_32),
+                                rel_info: rel_info_from_type!(object::elf::R_X86_64_32S),
                                 mandatory: output_kind.is_static_executable(),
                             });
                         }
@@ -199,7 +201,7 @@ impl crate::platform::Arch for ElfX86_64 {
                         0x3b => {
                             return Some(Relaxation {
                                 kind: RelaxationKind::RexCmpIndirectToAbsolute(inst_offset),
-                                rel_info: rel_info_from_type!(object::elf::R_X86_64_32),
+                                rel_info: rel_info_from_type!(object::elf::R_X86_64_32S),
                                 mandatory: output_kind.is_static_executable(),
                             });
                         }
